@@ -316,6 +316,11 @@ impl Sub for MultiDimLoad {
 impl PartialOrd for MultiDimLoad {
     fn partial_cmp(&self, other: &Self) -> Option<Ordering> {
         let size = self.size.max(other.size);
+        // NOTE: loads without any dimension are equal
+        if size == 0 {
+            return Some(Ordering::Equal);
+        }
+
         (0..size)
             .try_fold(None, |acc, idx| {
                 let result = self.get(idx).cmp(&other.get(idx));
